@@ -135,7 +135,8 @@ func c19Gen(r *Run, rng *gen.Rng, corpus []string) *c19Inv {
 	// input file name variants
 	main := gw.Main
 	if rng.Chance(55) {
-		nm := rng.Pick([]string{"a.b.tsh", "noext", "my prog.tsh", "rel.v1/prog.tsh", "x.y.z", "UPPER.TSH", "prog.tsh.bak", "sub dir/m.tsh", "p.", "tsh", "bash", "batch", "out", "-x.tsh", "my%20prog.tsh", "100%.tsh", "50%done.v2.tsh", "%s.tsh", "report[1].tsh", "a*b.tsh", "q?.tsh"})
+		nm := rng.Pick([]string{"a.b.tsh", "noext", "my prog.tsh", "rel.v1/prog.tsh", "x.y.z", "UPPER.TSH", "prog.tsh.bak", "sub dir/m.tsh", "p.", "tsh", "bash", "batch", "out", "-x.tsh", "my%20prog.tsh", "100%.tsh", "50%done.v2.tsh", "%s.tsh", "report[1].tsh", "a*b.tsh", "q?.tsh",
+			"prüfung.tsh", "テスト.tsh", "übung", "naïve.v2.tsh", "é.tsh", "Ünïcödé prog.tsh"})
 		// imports are relative to the main file's directory: keep the directory, change the base name
 		nm = path.Join(path.Dir(main), path.Base(nm))
 		if rng.Chance(33) && path.Dir(main) == "." && len(gw.Closure) == 1 {
@@ -173,9 +174,9 @@ func c19Gen(r *Run, rng *gen.Rng, corpus []string) *c19Inv {
 		gw.Set(victim, data)
 		inv.ProgKind = "mutated:" + desc
 	}
-	mount := rng.Pick([]string{"/sim/m", "/w/my proj", "/home/u/src", "/home/u/.dotfiles/p", "/w/proj-1.2/src", "/w/100% (x)"})
+	mount := rng.Pick([]string{"/sim/m", "/w/my proj", "/home/u/src", "/home/u/.dotfiles/p", "/w/proj-1.2/src", "/w/100% (x)", "/w/projet-été"})
 	exe := rng.Pick([]string{"/sim/x", "/opt/tsh/bin"})
-	outAbs := rng.Pick([]string{"/sim/out", "/sim/out", "/w/build dir", mount, "/sim/bash", "/sim/batch", "/sim/-t", "/sim/out.d/v1.2", "/sim/build%20out", "/sim/out [1]"})
+	outAbs := rng.Pick([]string{"/sim/out", "/sim/out", "/w/build dir", mount, "/sim/bash", "/sim/batch", "/sim/-t", "/sim/out.d/v1.2", "/sim/build%20out", "/sim/out [1]", "/sim/ausgabe-ü", "/sim/出力"})
 	files := c13World(gw, r.Env, mount, exe)
 	if outAbs != mount {
 		files = append(files, simrt.FileSpec{Path: outAbs, Dir: true})
@@ -642,6 +643,33 @@ func c19Judge(inv *c19Inv, res *TshResult, refs map[string]*c19Ref, st *c19Stats
 		ref := refs[inv.refKey(t)]
 		if stateOf(getFinal, p) == stateOf(getPre, p) {
 			continue
+		}
+		// An older output that is a symbolic link to the output path of ANOTHER requested target:
+		// writing that other target's file (which the property demands) necessarily changes what a
+		// reader of this path gets. As long as the link itself is untouched, nothing is settled.
+		if k, l, _ := getPre(p); k == "link" {
+			aliased := false
+			q := p
+			for hop := 0; hop < 8 && !aliased; hop++ {
+				kk, ll, _ := getPre(q)
+				if kk != "link" {
+					break
+				}
+				if path.IsAbs(ll) {
+					q = path.Clean(ll)
+				} else {
+					q = path.Join(path.Dir(q), ll)
+				}
+				for _, t2 := range uniq(inv.Targets) {
+					if t2 != t && q == path.Join(outDir, stem+"."+extOf[t2]) {
+						aliased = true
+					}
+				}
+			}
+			if kf, lf, _ := getFinal(p); aliased && kf == "link" && lf == l {
+				clause("3:output-aliases-another-target(unsettled)")
+				continue
+			}
 		}
 		if ref != nil && ref.Accepted && ex && data == string(ref.Script) {
 			continue
